@@ -263,6 +263,11 @@ def c11(tier):
     run.add_jobs(jobs_for(fam, {"pause": 1, "max_nodes": sizes(tier, 500, 4000)}, s, ("jinja",), tok="visit"))
     rend = [d for d in fam if d["fault"]["pos"] in ("action", "input", "items", "conc", "delay")][::2]
     run.add_jobs(jobs_for(rend, {"rerun": 1, "rerun_tasks": "all", "max_nodes": sizes(tier, 900, 4000)}, s, ("yaql", "jinja")))
+    # the faulty position evaluated by a late completion: the action went pending (an inquiry), the workflow
+    # was paused / canceled meanwhile, then the action completes
+    late = F.with_e2([d for d in fam if d["fault"]["pos"] in ("when", "publish", "retry_when", "retry_count", "retry_delay")],
+                     fates=("s", "f", "p"))
+    run.add_jobs(jobs_for(late, {"pause": 1, "cancel": 1, "max_nodes": sizes(tier, 600, 3000)}, s, ("yaql",), tok="visit"))
     if tier != "quick":
         run.add_jobs(jobs_for(fam, {"lazy": True, "max_nodes": 4000}, s + 1, ("jinja", "yaql"), tok="visit"))
     run.extra["positions"] = list(F.FAULT_POSITIONS)
